@@ -78,12 +78,12 @@ def Img.subSlices (im : Img) (sls : List PySlice) : Except Err Img := do
 def colMin (pts : List (List Int)) (d : Nat) : Option Int := (pts.map fun p => listGetD p d 0).min?
 def colMax (pts : List (List Int)) (d : Nat) : Option Int := (pts.map fun p => listGetD p d 0).max?
 
-/-- `slice(max(0, min(voxels[:, d])), min(max(voxels[:, d]), num_voxels[d]))` per axis;
+/-- `slice(max(0, min(voxels[:, d])), max(0, min(max(voxels[:, d]), num_voxels[d])))` per axis;
 `np.min` of an empty column raises ValueError -/
 def boxSlices (shape : List Nat) (pts : List (List Int)) : Except Err (List PySlice) :=
   shape.zipIdx.mapM fun (N, d) =>
     match colMin pts d, colMax pts d with
-    | some lo, some hi => .ok (some (max 0 lo), some (min hi (N : Int)))
+    | some lo, some hi => .ok (some (max 0 lo), some (max 0 (min hi (N : Int))))
     | _, _ => .error .value
 
 /-- `Image.subregion(VoxelArray)` -/
@@ -131,8 +131,8 @@ def Img.timeInterval (im : Img) (s : PySlice) : Except Err Img := do
   let r := sliceIdx im.slabs.length s
   pure { im with slabs := Patch.sliceL im.slabs r, time := Patch.sliceL im.time r, date := Patch.sliceL im.date r }
 
-/-- `Image.append(image, offset)` (returns the updated `self`) -/
-def Img.append (im other : Img) (offset : Option Rat) : Except Err Img := do
+/-- the safety checks of `Image.append` -/
+def appendChecks (im other : Img) : Except Err Unit := do
   if im.cs.dim ≠ other.cs.dim then throw .assertion
   if im.scalar ≠ other.scalar then throw .assertion
   if im.cs.shape ≠ other.cs.shape then throw .assertion
@@ -142,14 +142,18 @@ def Img.append (im other : Img) (offset : Option Rat) : Except Err Img := do
     | _, _ => pure ()
   if im.cs.dims ≠ other.cs.dims then throw .assertion
   if im.cs.origin ≠ other.cs.origin then throw .assertion
-  let date := im.date ++ other.date
-  let tm ←
-    if anyNone im.time || anyNone other.time then timesFromDates date im.ref
-    else if offset.isNone && !(anyNone im.date || anyNone other.date) then timesFromDates date im.ref
-    else
-      let off := offset.getD 0
-      pure (im.time ++ other.time.map fun t => t.map (· + off))
-  pure { im with series := true, slabs := im.slabs ++ other.slabs, time := tm, date := date }
+
+/-- the relative times of the appended series (`Image.append` + `set_time`) -/
+def appendTimes (im other : Img) (offset : Option Rat) : Except Err (List (Option Rat)) :=
+  if anyNone im.time || anyNone other.time then timesFromDates (im.date ++ other.date) im.ref
+  else if offset.isNone && !(anyNone im.date || anyNone other.date) then timesFromDates (im.date ++ other.date) im.ref
+  else .ok (im.time ++ other.time.map fun t => t.map (· + offset.getD 0))
+
+/-- `Image.append(image, offset)` (returns the updated `self`) -/
+def Img.append (im other : Img) (offset : Option Rat) : Except Err Img := do
+  appendChecks im other
+  let tm ← appendTimes im other offset
+  pure { im with series := true, slabs := im.slabs ++ other.slabs, time := tm, date := im.date ++ other.date }
 
 /-- `darsia.stack(images)` -/
 def stack : List Img → Except Err Img
